@@ -370,6 +370,44 @@ def main():
                            "batch": 1, "localize": False})
         st, exp = machine.replay(v, items, builds,
                                  sigfn=lambda it, k, why, b, e, a: "options:behaviour:%s:%s" % (b["name"], why.split(":")[0]))
+        # C3. nesting far beyond what compilers produce (the code generator recurses per level): the file-splitting and thread
+        #     options change WHERE a function is generated (main thread or a pool thread), never whether or how
+        D1, D2 = (6000, 3000) if tier == "quick" else (12000, 6000)
+        kinds = [("block", "") if d % 2 == 0 else ("loop", "") for d in range(D1)]
+        f_blocks = [[k[0], k[1]] for k in kinds] + [["local.get", 0], ["br_if", D1 - 1]] + [["end"]] * D1 + [["i32.const", b32(D1)], ["end"]]
+        f_ifs = [x for _ in range(D2) for x in (["local.get", 0], ["if", ""])] + [["nop"]] + [["end"]] * D2 + [["i32.const", b32(D2)], ["end"]]
+        dm = {"types": [{"p": ["i32"], "r": ["i32"]}],
+              "funcs": [{"type": 0, "locals": [], "body": f_blocks}, {"type": 0, "locals": [], "body": f_ifs},
+                        {"type": 0, "locals": [], "body": [["local.get", 0], ["end"]]}],
+              "exports": [{"name": "fn%d" % k, "kind": "func", "idx": k} for k in range(3)]}
+        dd = os.path.join(wd, "verydeep")
+        os.makedirs(dd)
+        open(os.path.join(dd, "deep.wasm"), "wb").write(wasm_encode.encode(machine.enc_module(dm)))
+        rmod = dict(dm, funcs=[dm["funcs"][2], dm["funcs"][2], dm["funcs"][2]])
+        open(os.path.join(dd, "ref.wasm"), "wb").write(wasm_encode.encode(machine.enc_module(rmod)))
+        base_texts = {}
+        for oi, opts in enumerate((["-t", "1"], ["-t", "1", "-p"], ["-f", "1", "-t", "1"], ["-f", "1", "-t", "3"], ["-f", "2", "-t", "64"], ["-f", "1", "-t", "2", "-p"],
+                                   ["-f", "2", "-t", "2", "-r", "../ref.wasm"], ["-f", "3", "-t", "1", "-r", "../ref.wasm", "-p"])):
+            od = os.path.join(dd, "o%d" % oi)
+            os.makedirs(od)
+            rc, so, se = run([w2c2] + opts + ["../deep.wasm", "out.c"], cwd=od, timeout=300)
+            if rc != 0:
+                v.deviation("options:deep-nesting:translation-fails", {"options": opts, "depth": [D1, D2], "rc": rc, "stderr": se[-300:]})
+                continue
+            fns = {}
+            for fn_ in sorted(os.listdir(od)):
+                if fn_.endswith(".c"):
+                    for nme, defs_ in split_functions(open(os.path.join(od, fn_)).read()).items():
+                        fns.setdefault(nme, []).extend(defs_)
+            key = "-p" in opts
+            if oi < 2:
+                base_texts[key] = fns
+                continue
+            for nme, defs_ in base_texts.get(key, {}).items():
+                if fns.get(nme) != defs_:
+                    v.deviation("options:deep-nesting:function-text", {"options": opts, "function": nme, "definitions": len(fns.get(nme, []))})
+            stats["model_states"] += 0
+        shutil.rmtree(dd, ignore_errors=True)
         # C2. -m: two modules translated with symbol prefixing live in one program
         for case, exports_a in (("data-segments", "fn"), ("export-named-like-internal-function", "f")):
             dd = os.path.join(wd, "multi-" + case)
